@@ -37,7 +37,8 @@ MANIFEST = {
                 "every table and every answer of ::open / fork; the 'prepare argv of child' statement of start(program, argc, argv, env) and of "
                 "open(executable, argc, argv, streams, env) (fragment translation, PropsVec.lean) = the model's prepareArgv for every program, "
                 "argc and pointer vector (same fault, same resulting vector) - so argv_env_exact* speak about the current argv preparation; three "
-                "more fragments of open() (PropsOpen.lean): the parent branch behind vfork(), the child branch up to execvpe and the error: path "
+                "more fragments of open() (PropsOpen.lean): the three pipe()-creating statements with their goto error (= Kernel.pipesUntilFailure / "
+                "errorPath for every mask, table, descriptor choice and failing call), the parent branch behind vfork(), the child branch up to execvpe and the error: path "
                 "= the components of Kernel.openFds / openFdsFailed on every table and whatever the pipe arrays hold - so open_pipe_ends_exact "
                 "and open_failure_restores_table speak about the current close/dup2 sequences.  "
                 "A change of these C++ bodies changes the generated Lean "
@@ -76,7 +77,7 @@ MANIFEST = {
                 "System calls of the translated Process-object functions: ::close / ::kill append to a trace, `waitpid(pid, &status, 0) != "
                 "(pid_t)pid` is one oracle-answered condition (waitpid returns the requested pid or -1), CSemProc.lean.  "
                 "Everything of Process.cpp OTHER than nextChar / read / the Arguments constructor / splitCommandLine / Process(), ~Process, "
-                "isRunning, kill, join, close, exit, the 2- and 3-argument read, write, setEnvironmentVariable, getEnvironmentVariable, daemonize (i.e. of start and open: the pid check, the environment preparation, the pipe() calls, vfork and execvpe themselves; start(commandLine)'s vector building; wait, interrupt, getEnvironmentVariables, prepareEnv) is still a HAND translation into the model, validated by the "
+                "isRunning, kill, join, close, exit, the 2- and 3-argument read, write, setEnvironmentVariable, getEnvironmentVariable, daemonize (i.e. of start and open: the pid check, the environment preparation, vfork and execvpe themselves; start(commandLine)'s vector building; wait, interrupt, getEnvironmentVariables, prepareEnv) is still a HAND translation into the model, validated by the "
                 "correspondence run, not proved.  A harmless restructuring of a translated body breaks the equality proof (reported as "
                 "'proof obligations / model tie no longer check' without failing input).  Checked-memory abstraction (one block per argv word / option name, the option table holds "
                 "null or NUL-free terminated names); Map iteration = ascending key order (C01).  'getopt rules' means the "
